@@ -67,8 +67,8 @@ class C01(PropCheck):
             "exceptions; as generator, coroutine and async generator; 3 (quick) / 8 (thorough) choice lists each; every suspension "
             "point observed; non-trivial = some manager active at some observation; distinct = (program, choices)")
     manifest = {
-        "text": "Lean (M-A, SSModel/ExcTable.lean): C01_varint_roundtrip / C01_varint_msb / C01_table_roundtrip (the decoder of co_exceptiontable inverts the assembler's encoding for every entry list and any sizes), C01_truncated_tail, C01_walk_chain (on a table with sorted, disjoint ranges inspect_frame's bisect walk is the same function as iterating the interpreter's own handler lookup from each handler's target: same blocks, same order), C01_walk_terminates (when handlers lie after the ranges they protect the loop ends within |table|+1 iterations) and C01_walk_cycle (a handler inside its own range makes the unguarded loop spin), C01_join_exact (the context list is one entry per with-handler of the chain, in chain order, exiting one last) and C01_join_fails_closed (a missing slot or a slot without __self__ fails the whole analysis: never a shorter or shifted list). Tie: every program's real co_exceptiontable bytes go through the model's decoder, re-encoder, walk at every observed f_lasti, and are compared with _parse_exception_table and inspect_frame(...).blocks; sortedness/disjointness (the theorems' hypothesis) is checked on every table. That CPython's compiler only emits code on which this chain equals the set of entered-not-exited managers is NOT proved: it is measured on every run by executing generated programs under recorded choices and comparing with instrumented managers' event logs at every suspension point.",
-        "note": "Partial: the compiler-output half of the property is measured, not proved; bisect.bisect_left is modelled by its contract on sorted input; CPython 3.12 only. F2 (with bodies ending in try/except, try/finally or a conditional return, being exited) was repaired in /repo; its witness still runs on every check.",
+        "text": "Lean (M-A, SSModel/ExcTable.lean): C01_varint_roundtrip / C01_varint_msb / C01_table_roundtrip (the decoder of co_exceptiontable inverts the assembler's encoding for every entry list and any sizes), C01_truncated_tail, C01_cpython_encoder (CPython's five-case assembler routine is that encoder below 2^30), C01_bisect_partition (the standard library's binary search, transcribed, finds the partition point on sorted disjoint tables), C01_walk_chain (on a table with sorted, disjoint ranges inspect_frame's bisect walk is the same function as iterating the interpreter's own handler lookup from each handler's target: same blocks, same order), C01_walk_terminates (when handlers lie after the ranges they protect the loop ends within |table|+1 iterations) and C01_walk_cycle (a handler inside its own range makes the unguarded loop spin), C01_join_exact (the context list is one entry per with-handler of the chain, in chain order, exiting one last) and C01_join_fails_closed (a missing slot or a slot without __self__ fails the whole analysis: never a shorter or shifted list). Tie: every program's real co_exceptiontable bytes go through the model's decoder, re-encoder, walk at every observed f_lasti, and are compared with _parse_exception_table and inspect_frame(...).blocks; sortedness/disjointness (the theorems' hypothesis) is checked on every table. That CPython's compiler only emits code on which this chain equals the set of entered-not-exited managers is NOT proved: it is measured on every run by executing generated programs under recorded choices and comparing with instrumented managers' event logs at every suspension point.",
+        "note": "Partial: the compiler-output half of the property is measured, not proved; bisect.bisect_left is transcribed as a fuel-bounded binary search; CPython 3.12 only. F2 (with bodies ending in try/except, try/finally or a conditional return, being exited) was repaired in /repo; its witness still runs on every check.",
     }
     assumptions = ["co_exceptiontable format and the ceval handler lookup as in CPython 3.11/3.12", "the ctypes layout of _PyInterpreterFrame (checked by the module's own import-time asserts)"]
 
